@@ -3,7 +3,7 @@
 import glob, json, re, subprocess, sys
 pid = sys.argv[1]
 base = subprocess.run(['/verif/tools/agent_prompt.py', pid], capture_output=True, text=True).stdout
-base = base.replace('/tmp/wt/', '/tmp/wt3/').replace('/tmp/seed/', '/tmp/seed3/')
+base = base.replace('/tmp/wt/', '/tmp/wt4/').replace('/tmp/seed/', '/tmp/seed4/')
 known = []
 for f in sorted(glob.glob('/verif/seeded/%s-*/meta.json' % pid)):
     m = json.load(open(f))
@@ -12,6 +12,6 @@ for f in sorted(glob.glob('/verif/seeded/%s-*/meta.json' % pid)):
 extra = '''
 Changes of the following kinds have ALREADY been collected for this property; do not repeat them or close variants of them - attack other clauses, other functions, or other mechanisms of the property:
 %s
-Also avoid simply reverting a recent "fix:" commit of the repository (see `git -C /tmp/wt3/%s log --oneline | head -40`): those are known too.
+Also avoid simply reverting a recent "fix:" commit of the repository (see `git -C /tmp/wt4/%s log --oneline | head -40`): those are known too.
 ''' % ('\n'.join(known), pid)
 print(base.replace('For each change N in (1, 2) write', extra + '\nFor each change N in (1, 2) write'))
